@@ -67,15 +67,17 @@ pub fn run_guarded(c: &Case) -> Option<RunOut> {
 
 /// live bytes that one more execution of `c` leaves behind (0 for a leak-free database)
 pub fn leak_delta(c: &Case) -> i64 {
+    // several repetitions: other threads of the process (the heartbeat) allocate transiently, a
+    // leak grows every time
     allocguard::enable(true);
-    let _ = run_any_inner(c);
-    allocguard::flush();
-    let b1 = allocguard::counters().2;
-    let _ = run_any_inner(c);
-    allocguard::flush();
-    let b2 = allocguard::counters().2;
+    let mut live = vec![];
+    for _ in 0..4 {
+        let _ = run_any_inner(c);
+        allocguard::flush();
+        live.push(allocguard::counters().2);
+    }
     allocguard::enable(false);
-    b2 - b1
+    live.windows(2).map(|w| w[1] - w[0]).min().unwrap_or(0)
 }
 
 /// number of case executions started by this process (heartbeat for the driver's hang watchdog)
